@@ -505,10 +505,10 @@ def shards(tier, seed=1):
     n = 1 if q else 8
     out.append({"check": "tables", "examples": 200 * n, "budget_s": 150 * n})
     out.append({"check": "tables", "examples": 100 * n, "budget_s": 120 * n, "kind": "multitrace"})
-    out.append({"check": "refine", "examples": 60 * n, "budget_s": 120 * n})
+    out.append({"check": "refine", "examples": 100 * n, "budget_s": 120 * n})
     out.append({"check": "barycentric", "examples": 60 * n, "budget_s": 120 * n})
-    out.append({"check": "union", "examples": 80 * n, "budget_s": 120 * n})
-    out.append({"check": "segments", "examples": 100 * n, "budget_s": 120 * n})
+    out.append({"check": "union", "examples": 150 * n, "budget_s": 120 * n})
+    out.append({"check": "segments", "examples": 400 * n, "budget_s": 120 * n})
     out.append({"check": "pointcloud", "examples": 60 * n, "budget_s": 120 * n})
     return out
 
